@@ -428,6 +428,10 @@ class SimNet:
     async def open_connection(self, host=None, port=None, **kwargs):
         world = self.world
         loop = world.loop
+        if not isinstance(port, int) or not 0 <= port <= 65535:
+            # what socket / getaddrinfo do for a port a peer announced outside the 16 bit range (the protocol
+            # field is 32 bits wide): not an OSError
+            raise OverflowError('bind(): port must be 0-65535.')
         future = loop.create_future()
         entry = (host, port, future)
         self.unresolved_connects.append(entry)
